@@ -22,17 +22,18 @@ RULE = ("Case = sender (SBlock whose 'set' event assigns the output, initialised
         "Input, one evaluation per value or several puts per evaluation) x 0-3 on_output x 0-3 "
         "on_every_output events over <=3 shared recorders, each event with 0-2 filters from "
         "{add tag, delete 'trigger', strip all items, reject-if-value-in-set} x history of 0-30 assignments over "
-        "{1,True,1.0,0,False,0.0,None,'',(1,2),[1],'a',2,2.0} with fresh equal copies and immediate "
+        "{1,True,1.0,0,False,0.0,None,'',(1,2),[1],'a',2,2.0,NaN} with fresh equal copies and immediate "
         "repeats. Non-trivial = history with >=1 change between values of different type that compare "
         "equal or an equal-not-identical repeat, >=1 immediate repeat, and >=2 configured events; "
         "distinct by descriptor.")
 ASSUMPTIONS = [
-    "NaN is not generated (not reflexive under ==)",
+    "a NaN is unequal to everything including itself, so assigning it (even the same object again) is a change",
     "the return value of Event.send() for on_output events is not observable and not checked here (C16 does)",
 ]
 
 UNDEF = edzed.UNDEF
-POOL = [1, True, 1.0, 0, False, 0.0, None, '', (1, 2), [1], 'a', 2, 2.0]
+NAN = float('nan')
+POOL = [1, True, 1.0, 0, False, 0.0, None, '', (1, 2), [1], 'a', 2, 2.0, NAN]
 FUNCS = ['identity', 'bool', 'pair', 'const']
 
 
@@ -42,6 +43,8 @@ def mkval(idx, fresh):
         return tuple(list(v))
     if isinstance(v, list):
         return list(v)          # lists are always fresh objects
+    if v is NAN and fresh:
+        return float('nan')     # another object that is not equal to anything either
     return v
 
 
@@ -165,6 +168,8 @@ def same_value(a, b):
     """type-exact equality for data items"""
     if a is UNDEF or b is UNDEF:
         return a is b
+    if isinstance(a, float) and isinstance(b, float) and a != a and b != b:
+        return True             # both NaN
     return type(a) is type(b) and a == b
 
 
